@@ -145,11 +145,11 @@ type mode struct {
 
 // treeStats are the measurements of one run (for the NT rule and the classes).
 type treeStats struct {
-	monoRun, drained, twoChild, clones, drainEmpty, pruned int
-	minSlack                                               int
-	delRebuild                                             bool
-	maxHeight                                              int
-	succUp2                                                bool
+	monoRun, drained, twoChild, clones, drainEmpty, pruned, shaped int
+	minSlack                                                       int
+	delRebuild                                                     bool
+	maxHeight                                                      int
+	succUp2                                                        bool
 }
 
 // treeRun interprets a TreeCase on a tree of element type T.
@@ -264,6 +264,63 @@ func (r *treeRun[T]) errf(format string, args ...any) string {
 }
 
 func baseKey(x int) int64 { return int64(x) << keyShift }
+
+// lopsidedOrder returns the level order of the in-order indices 0..n-1 of a
+// lopsided shape (see op "shape"): a selects the sibling fraction and the
+// side of the spine, b the number of spine levels; at most maxN nodes.
+func lopsidedOrder(a, b, maxN int) []int {
+	type shp struct {
+		size  int
+		l, r  *shp
+		index int
+	}
+	var perfect func(n int) *shp
+	perfect = func(n int) *shp {
+		if n <= 0 {
+			return nil
+		}
+		l := (n - 1) / 2
+		return &shp{size: n, l: perfect(l), r: perfect(n - 1 - l)}
+	}
+	fr := [][2]int{{2, 3}, {1, 2}, {3, 4}, {1, 1}, {9, 10}}[a%5]
+	side := a / 5 % 3 // 0 spine to the left, 1 to the right, 2 alternating
+	depth := b%14 + 3
+	cur := &shp{size: 1}
+	for d := 1; d <= depth; d++ {
+		sib := perfect((fr[0]*cur.size + fr[1] - 1) / fr[1])
+		n := 1 + cur.size
+		if sib != nil {
+			n += sib.size
+		}
+		if n > maxN {
+			break
+		}
+		if side == 0 || side == 2 && d%2 == 0 {
+			cur = &shp{size: n, l: cur, r: sib}
+		} else {
+			cur = &shp{size: n, l: sib, r: cur}
+		}
+	}
+	next := 0
+	var label func(s *shp)
+	label = func(s *shp) {
+		if s != nil {
+			label(s.l)
+			s.index = next
+			next++
+			label(s.r)
+		}
+	}
+	label(cur)
+	var out []int
+	for q := []*shp{cur}; len(q) > 0; q = q[1:] {
+		if c := q[0]; c != nil {
+			out = append(out, c.index)
+			q = append(q, c.l, c.r)
+		}
+	}
+	return out
+}
 
 func (r *treeRun[T]) nextTag() int { r.tag++; return r.tag }
 
@@ -849,6 +906,33 @@ func (r *treeRun[T]) apply(op Op) string {
 		in.m.ks = nil
 		in.smax = 0
 		return r.after(in, true)
+	case "shape":
+		// Clear, then insert the keys of a LOPSIDED shape level by level: every
+		// node on one spine has a perfectly balanced sibling subtree holding a
+		// fixed fraction of the spine child's size (2/3, 1/2, 3/4, 1/1, 9/10), so
+		// no node is badly split and yet the spine is deeper than the bound
+		// allows for tight balance factors: only rebuilding keeps the bound
+		in.t.Clear()
+		in.m.ks = nil
+		in.smax = 0
+		if msg := r.after(in, true); msg != "" {
+			return msg
+		}
+		order := lopsidedOrder(op.A, op.B, maxTreeSize-10)
+		r.shaped++
+		for i, idx := range order {
+			r.sub = i
+			k := int64(idx+1) << keyShift
+			if i%16 != 0 && i != len(order)-1 {
+				r.cheapKey = &k
+			}
+			msg := r.doAdd(in, k, op.B%5 == 4)
+			r.cheapKey = nil
+			if msg != "" {
+				return msg
+			}
+		}
+		return ""
 	case "clone":
 		if len(r.insts) >= 3 {
 			return ""
